@@ -550,7 +550,17 @@ pub fn run(kv: &Args) -> i32 {
             9 => (i % 16) as u8,
             _ => (r.next_u32() % 16) as u8,
         });
-        let (sseed, rseed) = hand_seeds(&mut r, &d, case % 2 == 0);
+        let (mut sseed, mut rseed) = hand_seeds(&mut r, &d, case % 2 == 0);
+        // special leaf keys on a non-punctured leaf (the same on both sides): all-zero, all-one, equal neighbours
+        if case % 4 == 1 {
+            let tree = (case / 4) % TREES;
+            let leaf = (d[tree] as usize + 1 + (case / 8) % (Q - 1)) % Q;
+            let key = match (case / 4) % 3 { 0 => [0u8; KEYB], 1 => [0xffu8; KEYB], _ => sseed.otp_enc_keys[tree][(leaf + 1) % Q] };
+            if (leaf + 1) % Q != d[tree] as usize || (case / 4) % 3 != 2 {
+                sseed.otp_enc_keys[tree][leaf] = key;
+                rseed.otp_dec_keys[tree][leaf] = key;
+            }
+        }
         let (choices, choice_name) = choice_vector(case / 3, &mut r);
         let mut choices = choices;
         if case % 9 == 8 {
@@ -561,6 +571,12 @@ pub fn run(kv: &Args) -> i32 {
         }
         let mut tape = [0u8; SB];
         r.fill_bytes(&mut tape);
+        // degenerate honest runs: all-zero / all-one choice vector together with an all-zero / all-one extension tape
+        // (the check value x of the first-round message is then 0 resp. a sum of challenges only)
+        if case < 8 {
+            choices = if case & 1 == 0 { [0u8; LB] } else { [0xffu8; LB] };
+            tape = if case & 2 == 0 { [0u8; SB] } else { [0xffu8; SB] };
+        }
         let buf = vec![0u8; MSG_BYTES];
         let desc = format!("sweep {case}: sid_len={sid_len} delta={} choices={choice_name} sid={} choices_hex={} tape={}",
             hx(&d), hx(&sid), hx(&choices), hx(&tape));
